@@ -120,7 +120,7 @@ Print Assumptions C07_substreams_strict.
 Theorem C07_files_strict : forall lim pos files ef bs,
   zlen files <= lim -> named_bs files = true -> write_files pos files ef = Ok bs ->
   exists body, bs = 5 :: body /\
-    forall r, s_files lim (body ++ r) = Ok ((map norm_file files, norm_emptyfiles files ef), r).
+    forall r, s_files lim (body ++ r) = Ok ((norm_files files, norm_emptyfiles files ef), r).
 Proof. exact s_files_wr. Qed.
 Print Assumptions C07_files_strict.
 
